@@ -17,7 +17,9 @@ RULE = ("TLC enumerates solution descriptors per dimension with the other dimens
         "leaves uniform; numpy scalar leaves (float64 / int64 for every kind, float32 for KS); "
         "state order (ascending, adjacent swap, rotation keeping the first state, gaps, smallest step not first, descending) "
         "x route (writer: Trajectory in that order; doc: state nodes of the dumped document permuted, then fromstring) "
-        "for every kind and for cooperative pairs; all 8 metadata presence subsets, every computation-time class / date token / processor-name text class "
+        "for every kind and for cooperative pairs; mutate-after-construction histories (object built or read from a "
+        "document, then each public attribute - planning_problem_id, cost_function, vehicle_type, trajectory, kind, "
+        "scenario_id, computation_time, processor_name, date - re-assigned, alone and together, single and cooperative); all 8 metadata presence subsets, every computation-time class / date token / processor-name text class "
         "(plain, (R)/(TM), XML specials, blanks, non-ASCII, empty, 200 chars, auto, tabs/newlines) / scenario-id token; "
         "every sequence of 2..3 kinds as a cooperative solution (in and out of schema order, ids ascending and not); "
         "plus a seeded random sample mixing all dimensions.  Each descriptor is built through public constructors, "
@@ -127,12 +129,41 @@ def _random_case(rng):
             "proc": rng.choice(["None"] + sorted(_PROC)), "scen": rng.choice(sorted(_SCEN)), "route": rng.choice(["writer", "writer", "doc"]), "src": "random"}
 
 
+def _random_history(rng, case):
+    """A different initial descriptor for the same object (mutate-after-construction); inputs only, no expectations."""
+    import copy
+    init = {k: copy.deepcopy(case[k]) for k in ("pps", "ct", "date", "proc", "scen")}
+    init["route"] = "writer"
+    for p in init["pps"]:
+        if rng.random() < 0.5:
+            p["ppid"] += 1000
+        if rng.random() < 0.4:
+            p["cost"] = rng.choice([c for c in (_PMCOSTS if p["model"] == "PM" else _COSTS) if c != p["cost"]])
+        if rng.random() < 0.4:
+            p["vtype"] = p["vtype"] % 4 + 1
+        if rng.random() < 0.4:
+            k = rng.choice([km[0] for km in _KM if km[1] == p["model"]])
+            p["kind"], p["steps"] = k, [p["steps"][0] + 3, p["steps"][0] + 4]
+            p["vals"] = [["neg"] * _NV[k], ["intf"] * _NV[k]]
+    for key, tab in (("ct", _CT), ("proc", _PROC), ("scen", _SCEN), ("date", _DATE)):
+        if rng.random() < 0.4 and case[key] != "default":
+            init[key] = rng.choice([t for t in ["None"] * (key != "scen") + sorted(tab) if t != case[key]])
+    if all(init[k] == case[k] for k in ("pps", "ct", "date", "proc", "scen")):
+        init["pps"][0]["ppid"] += 1000
+    case["route"] = "writer"
+    case["origin"] = rng.choice(["built", "read"])
+    case["init"] = init
+
+
 def cases(ctx):
     cs = ctx.gen("MC_SolutionCodec", "GEN_SolutionCodec.cfg")
     for c in cs:
         c["src"] = "tlc"
     for _ in range(20000 if ctx.thorough else 3000):
-        cs.append(_random_case(ctx.rng))
+        c = _random_case(ctx.rng)
+        if ctx.rng.random() < 0.2:
+            _random_history(ctx.rng, c)
+        cs.append(c)
     ctx.extra["either_band_cases"] = {"processor_name(auto|ws)": sum(1 for c in cs if c["proc"] in _PROC_EITHER),
                                       "of": len(cs)}
     return cs
@@ -278,7 +309,50 @@ def _permute_states(text, sol):
     return etree.tostring(root, encoding="unicode")
 
 
-def _sigs(sol):
+def _meta_value(key, tok):
+    from datetime import datetime
+    from commonroad.scenario.scenario import ScenarioID
+    if key == "scen":
+        return ScenarioID(*_SCEN[tok])
+    if tok == "None":
+        return None
+    return {"ct": _CT, "proc": _PROC}[key][tok] if key != "date" else datetime(*_DATE[tok])
+
+
+def _with_history(sol, init, origin, cur):
+    """Reach the current descriptor `sol` by mutation: build `init`, optionally write+read it, then assign every public
+    attribute in which init differs from sol (trajectories are taken from `cur`, a throw-away build of sol)."""
+    from commonroad.common.solution import (CommonRoadSolutionReader, CommonRoadSolutionWriter, CostFunction,
+                                            VehicleType)
+    real, _, _ = _build(init)
+    if origin == "read":
+        real = CommonRoadSolutionReader.fromstring(CommonRoadSolutionWriter(real).dump())
+    for obj, p0, p1, c in zip(real.planning_problem_solutions, init["pps"], sol["pps"], cur.planning_problem_solutions):
+        if p0["ppid"] != p1["ppid"]:
+            obj.planning_problem_id = p1["ppid"]
+        if (p0["kind"], p0["steps"], p0["vals"]) != (p1["kind"], p1["steps"], p1["vals"]):
+            obj.trajectory = c.trajectory
+        if p0["cost"] != p1["cost"]:
+            obj.cost_function = CostFunction[p1["cost"]]
+        if p0["vtype"] != p1["vtype"]:
+            obj.vehicle_type = VehicleType[_VTYPE[p1["vtype"]]]
+    if init["scen"] != sol["scen"]:
+        real.scenario_id = _meta_value("scen", sol["scen"])
+    if init["ct"] != sol["ct"]:
+        real.computation_time = _meta_value("ct", sol["ct"])
+    if init["proc"] != sol["proc"]:
+        real.processor_name = _meta_value("proc", sol["proc"])
+    if init["date"] != sol["date"]:
+        real.date = _meta_value("date", sol["date"])
+    return real
+
+
+def _sigs(sol, origin="none"):
+    r, s = _sigs1(sol)
+    return (r + "+mutated" if origin != "none" else r), s
+
+
+def _sigs1(sol):
     r, s = _sigs0(sol)
     if any(p["steps"] != sorted(p["steps"]) for p in sol["pps"]):      # an ascending "doc" document equals the writer's
         r = ("doc" if sol["route"] == "doc" else "") + r + "+scrambled"
@@ -301,21 +375,27 @@ def execute(case):
     use_repo()
     sol = {k: case[k] for k in ("pps", "ct", "date", "proc", "scen")}
     sol["route"] = case.get("route", "writer")
-    rsig, ssig = _sigs(sol)
+    origin = case.get("origin", "none")
+    hist = {"origin": origin}
+    if origin != "none":
+        hist["init"] = case["init"]
+    rsig, ssig = _sigs(sol, origin)
     base = {}                   # the descriptor is logged once, in the first (write) event of the trace
     ev = []
     fields = [_FIELDS[p["kind"]][1] + ["time_step"] for p in sol["pps"]]
     try:
         real, orig, fields = _build(sol)
         from commonroad.common.solution import CommonRoadSolutionReader, CommonRoadSolutionWriter
+        if origin != "none":
+            real = _with_history(sol, case["init"], origin, real)
         text = CommonRoadSolutionWriter(real).dump()
         if sol["route"] == "doc":
             text = _permute_states(text, sol)
         doc, verdict = _abstract_doc(text)
     except Exception as ex:
-        ev.append(dict(base, op="write", sig=rsig, res=_exc(ex), fields=fields, sol=sol))
+        ev.append(dict(base, op="write", sig=rsig, res=_exc(ex), fields=fields, sol=sol, **hist))
         return {"ev": ev}
-    ev.append(dict(base, op="write", sig=rsig, res="ok", fields=fields, sol=sol))
+    ev.append(dict(base, op="write", sig=rsig, res="ok", fields=fields, sol=sol, **hist))
     ev.append(dict(base, op="schema", sig=ssig, doc=doc, lxml=verdict))
     try:
         back = CommonRoadSolutionReader.fromstring(text)
